@@ -12,15 +12,16 @@ SPEC = dict(
                "notebook) and reached through path spellings (./, //, sub/../, and link/../ through a symbolic link to a directory, where the file meant is "
                "not the one a lexical clean-up names, with and without a decoy database at the lexical location): the real database must come back. "
                "The returned database belongs to the caller: after seven kinds of changes to an earlier fallback result (replace through the caching wrapper, edit, "
-               "append, empty, truncate) the next load that falls back must again be the pristine built-in database.",
+               "append, empty, truncate) the next load that falls back must again be the pristine built-in database. Loadable files carry every common mode "
+               "(0666, 0777, 0606 ... 0400); and a file is replaced between two loads of one process by content of the same length with its modification time kept.",
     level_note="Attempts and waits are observed by the verif hook (before time.Sleep), never inferred from wall-clock time. BackoffFactor < 1 is not a back-off and is excluded.",
     engines=[dict(name="loadfaults", shards=T(16, 16), timeout=T(900, 3600))],
     rule="case = (main fault, notebook fault, backup fault, retry configuration, transient-repair point); every case is non-trivial (each creates real files and drives the real loader); "
          "distinct by the tuple.",
     floors=T({"permission-faults-exercised": 80, "retried": 100, "multi-wait-sequences": 30, "transient": 100, "steep-backoff-configs": 20, "returned-real": 50, "returned-fallback": 300,
-              "distinct_nontrivial": 600, "large-files-over-8MiB": 6, "path-spellings-through-symlink": 6, "fallback-isolation-cases": 7, "main:valid-utf16": 50},
+              "distinct_nontrivial": 600, "large-files-over-8MiB": 6, "path-spellings-through-symlink": 6, "fallback-isolation-cases": 7, "main:valid-utf16": 50, "file-modes": 30, "same-size-same-mtime-replacements": 6},
              {"permission-faults-exercised": 300, "retried": 400, "multi-wait-sequences": 100, "transient": 100, "steep-backoff-configs": 20, "returned-real": 150, "returned-fallback": 1000,
-              "distinct_nontrivial": 1800, "large-files-over-8MiB": 12, "path-spellings-through-symlink": 6, "fallback-isolation-cases": 7, "main:valid-utf16": 150}),
+              "distinct_nontrivial": 1800, "large-files-over-8MiB": 12, "path-spellings-through-symlink": 6, "fallback-isolation-cases": 7, "main:valid-utf16": 150, "file-modes": 30, "same-size-same-mtime-replacements": 6}),
     assumptions=["a non-positive configured number of attempts is read as one attempt (and either the real database or the fallback is accepted, never nil/error)",
                  "a dangling symlink as notebook may be read as absent or as broken",
                  "the backup rung is never reached because the embedded rung always succeeds; backup faults are enumerated for totality only"],
